@@ -52,6 +52,7 @@ type executor struct {
 	single  bool
 	relaxed []bool // per object: after an injected failure
 	steps   func() int64
+	sharedJudged, sharedSkipped int64
 }
 
 // sameObs compares an observation with the reference. C09 compares byte for
@@ -148,6 +149,18 @@ func (x *executor) runOps(task int, ops []Op) {
 				// returns now and later is not compared (DESIGN §2.4); other
 				// objects get no relaxation.
 				x.relaxed[op.Obj] = true
+				// … and so are the schemas that registered the same type/rule objects
+				grp := func(o int) int {
+					if d := x.w.Objects[o].ShareWith - 1; d >= 0 && d < o {
+						return d
+					}
+					return o
+				}
+				for o := range x.w.Objects {
+					if grp(o) == grp(op.Obj) {
+						x.relaxed[o] = true
+					}
+				}
 				ts.panics++
 			}
 		}
@@ -217,6 +230,38 @@ func Execute(w *World, tape *simrt.Tape, gold []*Golden, onFatal func(int, strin
 	for i := range w.Objects {
 		x.insts[i] = &inst{proj: &w.Objects[i]}
 	}
+	for i := range w.Objects {
+		if d := w.Objects[i].ShareWith - 1; d >= 0 && d < i {
+			x.insts[i].donor = x.insts[d]
+		}
+	}
+	// Schemas that register the same type objects are judged only when every one of
+	// them is accepted in a fresh process: compilation completes the types in place
+	// (by design), and a compilation that *fails* half-way leaves them half-completed
+	// for the next schema (unchanged tree: the first reports code 704, the second 402).
+	// Such a group is executed, as unrelated work for the other objects, but not judged.
+	for i := range w.Objects {
+		d := w.Objects[i].ShareWith - 1
+		if d < 0 || d >= i {
+			continue
+		}
+		ok := true
+		for _, o := range []int{i, d} {
+			if gold[o] == nil || gold[o].Obs["check"] != "nil" {
+				ok = false
+			}
+		}
+		if !ok {
+			for o := range w.Objects {
+				if o == d || w.Objects[o].ShareWith-1 == d {
+					x.relaxed[o] = true
+				}
+			}
+			x.sharedSkipped++
+		} else {
+			x.sharedJudged++
+		}
+	}
 	x.ts = make([]taskState, len(w.Tasks))
 	x.steps = func() int64 { return simrt.GetStats().Steps }
 
@@ -278,6 +323,8 @@ func Execute(w *World, tape *simrt.Tape, gold []*Golden, onFatal func(int, strin
 		"blocked":                 res.Stats.Blocks,
 		"library-spawned-tasks":   res.Stats.Spawned,
 		"channel-operations":      res.Stats.ChanOps,
+		"schemas-sharing-type-objects-judged":     x.sharedJudged,
+		"schemas-sharing-type-objects-not-judged": x.sharedSkipped,
 	}
 	return res
 }
